@@ -536,6 +536,109 @@ func checkC10(c *Ctx, r *Report) {
 		})
 	}
 
+	// Prepare must install a fresh set on every call (a deferral lasts one session)
+	if fn := c.Func(pkg, "(*DirHandler).Prepare"); fn == nil {
+		r.Fail("C10-session", "anchor mailbox.(*DirHandler).Prepare not found")
+	} else {
+		resets := false
+		eachInstr(fn, func(_ *ssa.BasicBlock, _ int, in ssa.Instruction) {
+			st, ok := in.(*ssa.Store)
+			if !ok || !strings.HasSuffix(pathOf(st.Addr), ".deferred") {
+				return
+			}
+			if _, fresh := st.Val.(*ssa.MakeMap); !fresh {
+				return
+			}
+			all := true
+			for _, ret := range returnsOf(fn) {
+				if !instrDominates(in, ret) {
+					all = false
+				}
+			}
+			if all {
+				resets = true
+			}
+		})
+		r.Check("C10-session", fnName(fn), "Prepare resets the deferral set", c.pos(fn.Pos()), resets,
+			"a fresh map is stored on every path through Prepare", "Prepare does not install a fresh deferral set on every call: a message deferred in one session stays hidden in the next session on the same handler")
+	}
+	// GetOutbound consults the set (checked per append in C10-route); SetDeferred adds to it
+	if fn := c.Func(pkg, "(*DirHandler).SetDeferred"); fn != nil {
+		adds := false
+		eachInstr(fn, func(_ *ssa.BasicBlock, _ int, in ssa.Instruction) {
+			if mu, ok := in.(*ssa.MapUpdate); ok && strings.HasSuffix(pathOf(mu.Map), ".deferred") && mu.Key == ssa.Value(fn.Params[1]) {
+				if b, isC := constBool(mu.Value); isC && b {
+					adds = true
+				}
+			}
+		})
+		r.Check("C10-session", fnName(fn), "SetDeferred records the MID", c.pos(fn.Pos()), adds,
+			"deferred[MID] = true", "SetDeferred no longer records the MID it is given")
+	}
+
+	// ---- C10-sole: the sole-recipient test counts every recipient (To and Cc)
+	r.Rule("C10-sole", 2, "sole-recipient test over all recipients")
+	if fn := c.Func("fbb", "(*Message).IsOnlyReceiver"); fn == nil {
+		r.Fail("C10-sole", "anchor fbb.(*Message).IsOnlyReceiver not found")
+	} else {
+		o := r.Add("C10-sole", fnName(fn), "exactly one recipient among To and Cc, equal to the address", c.pos(fn.Pos()))
+		var recv *ssa.Call
+		for _, ci := range callsTo(fn, false, "fbb.Message.Receivers") {
+			recv, _ = ci.(*ssa.Call)
+		}
+		okLen, okCmp := false, false
+		if recv != nil {
+			for _, ret := range returnsOf(fn) {
+				v := resOf(ret, 0)
+				if b, isC := constBool(v); isC && !b {
+					continue
+				}
+				// a possibly-true return must lie on the len(receivers) == 1 edge
+				for _, cd := range condsAt(ret.Block()) {
+					bo, ok := cd.V.(*ssa.BinOp)
+					if !ok {
+						continue
+					}
+					k, isC := constInt(bo.Y)
+					lc, isLen := bo.X.(*ssa.Call)
+					if isC && k == 1 && isLen && callName(&lc.Call) == "builtin.len" && lc.Call.Args[0] == ssa.Value(recv) && ((bo.Op == token.EQL) == cd.Truth) && (bo.Op == token.EQL || bo.Op == token.NEQ) {
+						okLen = true
+					}
+				}
+				if dependsOn(v, func(x ssa.Value) bool {
+					ia, ok := x.(*ssa.IndexAddr)
+					return ok && ia.X == ssa.Value(recv)
+				}) && dependsOn(v, func(x ssa.Value) bool { return x == ssa.Value(fn.Params[1]) }) {
+					okCmp = true
+				}
+			}
+		}
+		switch {
+		case recv == nil:
+			o.Bad("IsOnlyReceiver does not look at Message.Receivers(): carbon-copy recipients are ignored, a message with further recipients is handed to a P2P peer and then counts as sent")
+		case !okLen || !okCmp:
+			o.Bad("IsOnlyReceiver can be true without 'exactly one receiver, and it equals the address' (len test: %v, comparison with the address: %v)", okLen, okCmp)
+		default:
+			o.OK("true only when len(m.Receivers()) == 1 and that receiver is compared with the address")
+		}
+	}
+	if fn := c.Func("fbb", "(*Message).Receivers"); fn == nil {
+		r.Fail("C10-sole", "anchor fbb.(*Message).Receivers not found")
+	} else {
+		to, cc := false, false
+		for _, ret := range returnsOf(fn) {
+			v := resOf(ret, 0)
+			if dependsOn(v, func(x ssa.Value) bool { cl, ok := x.(*ssa.Call); return ok && callName(&cl.Call) == "fbb.Message.To" }) {
+				to = true
+			}
+			if dependsOn(v, func(x ssa.Value) bool { cl, ok := x.(*ssa.Call); return ok && callName(&cl.Call) == "fbb.Message.Cc" }) {
+				cc = true
+			}
+		}
+		r.Check("C10-sole", fnName(fn), "Receivers = To and Cc", c.pos(fn.Pos()), to && cc,
+			"the result depends on both To() and Cc()", fmt.Sprintf("Receivers() does not combine To and Cc (To: %v, Cc: %v)", to, cc))
+	}
+
 	moveRule(c, r, "C10-move")
 
 	// ---- C10-store
